@@ -124,9 +124,10 @@ func (c *LRUCache) PushLine(addr AlignedAddress, data []int8) []int8 {
 
 	c.lines = append([]Line{newLine}, c.lines...)
 	if len(c.lines) > c.numberOfLines {
-		c.lines = c.lines[:c.numberOfLines]
 		// Return the evicted line
-		return c.lines[len(c.lines)-1].Data
+		evicted := c.lines[len(c.lines)-1].Data
+		c.lines = c.lines[:c.numberOfLines]
+		return evicted
 	}
 	return nil
 }
